@@ -22,13 +22,15 @@ PY = sys.executable
 DEFAULT_BUDGET = {"quick": 40.0, "thorough": 480.0}
 
 
-def load_findings(prop):
-    path = os.path.join(vf.VERIF_ROOT, "known_findings.json")
-    if not os.path.exists(path):
-        return []
-    with open(path) as f:
-        doc = json.load(f)
-    return [e for e in doc.get("findings", []) if e.get("property") == prop]
+def load_findings(prop, extra=None):
+    out = []
+    for path in [os.path.join(vf.VERIF_ROOT, "known_findings.json")] + ([extra] if extra else []):
+        if not os.path.exists(path):
+            continue
+        with open(path) as f:
+            doc = json.load(f)
+        out.extend(e for e in doc.get("findings", []) if e.get("property") == prop)
+    return out
 
 
 def sig_matches(entry_sig, sig):
@@ -45,6 +47,9 @@ def worker_env():
     env["MKL_NUM_THREADS"] = "1"
     env["PYTHONDONTWRITEBYTECODE"] = "1"
     env["PYTHONPATH"] = vf.VERIF_ROOT + os.pathsep + env.get("PYTHONPATH", "")
+    if os.environ.get("VERIF_GLUE_PATH"):
+        # development only (validating monitors against a modified scratch copy of glue)
+        env["PYTHONPATH"] = os.environ["VERIF_GLUE_PATH"] + os.pathsep + env["PYTHONPATH"]
     work = os.path.join(vf.VERIF_ROOT, ".work")
     os.makedirs(work, exist_ok=True)
     env["MPLCONFIGDIR"] = os.path.join(work, "mpl")
@@ -139,6 +144,7 @@ def main(argv=None):
     ap.add_argument("--replay", default=None)
     ap.add_argument("--shards", type=int, default=None)
     ap.add_argument("--budget-s", type=float, default=None)
+    ap.add_argument("--findings", default=None, help="development only: extra findings file to merge with known_findings.json")
     args = ap.parse_args(argv)
     prop = args.prop
     seed = int(os.environ.get("VERIF_SEED") or 0)
@@ -171,7 +177,7 @@ def main(argv=None):
     shutil.rmtree(workdir, ignore_errors=True)
 
     # ---- classify violations -------------------------------------------
-    findings = load_findings(prop)
+    findings = load_findings(prop, args.findings)
     known = [e for e in findings if e.get("status") == "known"]
     hits = {e["id"]: 0 for e in known}
     unknown = []
